@@ -18,6 +18,7 @@ Fixpoint uok (p : pt) : Prop :=
   | For body _ _ _ _ _ _ => uok body
   | Map inner _ _ => uok inner
   | Ren inner _ => uok inner
+  | ParT inner _ => uok inner
   end.
 
 Lemma uok_subs : forall l,
